@@ -370,10 +370,16 @@ def ends_rule(repo, res, rule="ENDS"):
             res.undecided(rule, f"{rule}:{q}", "function not found")
             continue
         found = None
+        known = {}
+        d = A.delegate(repo, fn)
+        if d is not None and not any(a["k"] == "Arm" for a in A.walk(fn.body)):
+            # head / tail as two wrappers of one function with a direction flag: read that function under the flag's value
+            fn, known = d
         for a in A.walk(fn.body):
             if a["k"] == "Arm" and any(v[0].endswith("::Sequence") for v in A.pat_variants(a["pat"])):
-                ms = [x["method"] for x in A.walk(a["body"]) if x["k"] == "MethodCall" and x["method"] in ("first", "last", "next", "next_back", "get", "nth")]
-                idx = [x for x in A.walk(a["body"]) if x["k"] == "Index"]
+                live = list(A.live_walk(a["body"], known))
+                ms = [x["method"] for x in live if x["k"] == "MethodCall" and x["method"] in ("first", "last", "next", "next_back", "get", "nth")]
+                idx = [x for x in live if x["k"] == "Index"]
                 found = (ms, len(idx))
         ok = found is not None and found[0] == [m] and found[1] == 0
         res.check(ok, rule, f"{rule}:{q}:Sequence", f"the Sequence arm takes children.{found[0] if found else '?'}()" + ("" if ok else f": must be children.{m}() -- the reported span would be the other end of the item"), fn.loc())
